@@ -29,7 +29,7 @@ def make_items(ctx, only=None):
         if only and name != only:
             continue
         rng = C.Prng(C.mix_seed(ctx.seed, 31, 7, i))
-        wl = K.gen_workload(rng, big=(i % 5 == 4), devel=True, swarm=True)
+        wl = K.gen_workload(rng, big=(i % 5 == 4), devel=True, swarm=True, splitdbg=True)
         if i == 1:
             # devel packages (private-type suppressions evaluated by every comparison task) with several *changed* pairs,
             # so that more than one task really consults the suppressions
@@ -51,6 +51,13 @@ def make_items(ctx, only=None):
                             {'path': 'plugins/b/libshapes.so', 'v1': 'shapes_v3', 'v2': 'shapes_v3'}, {'path': 'lib/libcxx.so', 'v1': 'cxx_v1', 'v2': 'cxx_v1'},
                             {'path': 'plugins/a/libcxx.so', 'v1': 'cxx_v2', 'v2': 'cxx_v2'}],
                   'format': 'dir', 'abignore': 'none', 'options': ['--no-default-suppression'], 'self_check': True}
+        if i == 4:
+            # split debug info in archives: the debug-info packages are extracted by further tasks of the extraction queues, and
+            # every comparison task looks its debug info up in the shared trees
+            wl = {'files': [{'path': 'lib/libshapes.so', 'v1': 'shapes_v0', 'v2': 'shapes_v2'}, {'path': 'lib/libcxx.so', 'v1': 'cxx_v0', 'v2': 'cxx_v2'},
+                            {'path': 'lib/libfnptr.so', 'v1': 'fnptr_v0', 'v2': 'fnptr_v1'}, {'path': 'bin/tool', 'v1': 'tool_v0', 'v2': 'tool_v1'},
+                            {'path': 'lib/libtiny.so', 'v1': 'tiny_v0_nodbg', 'v2': 'tiny_v1'}],
+                  'format': 'tar.gz', 'abignore': 'none', 'options': ['--no-default-suppression'], 'splitdbg': True}
         if i == 0:
             # one hand-made workload that always exercises both .abignore files and pairs that tie in the result
             # ordering (same base name, same summed size) while having different reports (v0->v1 and v1->v0)
@@ -92,7 +99,7 @@ def run_pkg(ctx, it, simt, parallel=True, variant=None, io_yield=False):
             else:
                 shutil.copyfile(src, dst)
         p1 = '@RUN@/' + os.path.basename(src)
-    spec = K.spec(wl, p1, p2, simt, parallel=parallel)
+    spec = K.spec(wl, p1, p2, simt, parallel=parallel, root=os.path.dirname(it['p1']))
     if io_yield:
         # scheduling points at every open and close of a file under the run directory (package copy, extraction and cache directories)
         spec['simf'] = {'objects': [{'prefix': '@RUN@'}], 'faults': [], 'io_yield': 1, 'helper': 1}     # helper: abipkgdiff runs mkdir, tar, rm through system()
